@@ -1,6 +1,6 @@
 // simk.h -- deterministic simulated kernel for socket-level harnesses (DESIGN.md §2.3).
 //
-// Link with -Wl,--wrap=poll,recv,send,connect,accept,getsockopt,setsockopt,socket,close,bind,fcntl
+// Link with -Wl,--wrap=poll,recv,send,connect,accept,getsockopt,setsockopt,socket,close,bind,fcntl,shutdown
 // and WITHOUT util/monoclock.c (this file defines monoclock_get*).  Simulated descriptors
 // live in [SIM_BASE, SIM_BASE+SIM_MAX); every other descriptor falls through to __real_*.
 // All behaviour is a pure function of the scripts installed by the case.
@@ -84,6 +84,7 @@ struct Sock {
   int closes = 0;
   bool nodelay = false;
   int rcvlowat = 1;  // SO_RCVLOWAT as set by the code under test (1 = the default; only values > 1 change anything below)
+  int shutdowns = 0;  // shutdown() calls made by the code under test; SHUT_WR / SHUT_RDWR make every later send() fail with EPIPE, SHUT_RD / SHUT_RDWR end the inbound stream
   size_t in_hold_sent = 0;  // inbound data is withheld until this many bytes were sent (a server that answers after reading the request)
 };
 
@@ -250,6 +251,7 @@ int __real_setsockopt(int, int, int, const void *, socklen_t);
 int __real_socket(int, int, int);
 int __real_close(int);
 int __real_bind(int, const struct sockaddr *, socklen_t);
+int __real_shutdown(int, int);
 int __real_fcntl(int, int, ...);
 
 int monoclock_get(struct timeval *tv) {
@@ -520,6 +522,34 @@ int __wrap_close(int fd) {
     return -1;
   }
   s->open = false;
+  return 0;
+}
+
+int __wrap_shutdown(int fd, int how) {
+  using namespace simk;
+  Kernel &k = K();
+  Sock *s = k.get(fd);
+  if (!s) return __real_shutdown(fd, how);
+  if (!s->open) {
+    errno = EBADF;
+    return -1;
+  }
+  s->shutdowns++;
+  if (how == SHUT_WR || how == SHUT_RDWR) {
+    if (!s->out_failed) {
+      s->out_failed = true;
+      s->out_err = EPIPE;
+    }
+  }
+  if (how == SHUT_RD || how == SHUT_RDWR) {
+    if (!s->in_end) {
+      s->in.clear();
+      InItem e;
+      e.t = IN_EOF;
+      s->in.push_back(e);
+      s->in_at = k.now;
+    }
+  }
   return 0;
 }
 
